@@ -414,6 +414,48 @@ def run_bigofs(case):
     return {"viol": dedupe(viol), "stats": stats, "evaluations": 1, "nontrivial": ["big:%d:%d" % (n, sum(1 for o in offs if o >= 2 ** 31))]}
 
 
+class Packets:
+    """a transport that delivers the stream in fixed-size packets: read_some never crosses a packet boundary, read_all blocks across them"""
+
+    def __init__(self, data, size):
+        self.data, self.size, self.pos = data, size, 0
+
+    def read_some(self, n):
+        left_in_packet = self.size - (self.pos % self.size)
+        k = max(1, min(n, left_in_packet))
+        out = self.data[self.pos:self.pos + k]
+        self.pos += len(out)
+        return out
+
+    def read_all(self, n):
+        out = bytearray()
+        while len(out) < n:
+            b = self.read_some(n - len(out))
+            if not b:
+                break
+            out += b
+        return bytes(out)
+
+
+def stream_in_packets(pk, n_expected, rng, viol, tag, stats):
+    """a valid pack must be readable from the wire however the transport slices it (REF_DELTA base names and the trailer may straddle
+    the reader's look-ahead buffer)."""
+    import hashlib
+    from dulwich.pack import PackStreamReader
+    for size in sorted(set(rng.sample(range(1, 131), 10) + [19, 20, 21, 24, 40, 64])):
+        pkts = Packets(pk, size)
+        try:
+            rd = PackStreamReader(hashlib.sha1, pkts.read_all, pkts.read_some)
+            n = sum(1 for _ in rd.read_objects(compute_crc32=True))
+            stats["packetised_stream_reads"] = stats.get("packetised_stream_reads", 0) + 1
+            if n != n_expected:
+                viol.append({"sig": "C02/%s/stream-in-packets-yields-%s-objects" % (tag, "fewer" if n < n_expected else "more"), "packet": size})
+                break
+        except Exception as e:
+            viol.append({"sig": "C02/%s/stream-in-packets-raises-%s" % (tag, type(e).__name__), "packet": size, "msg": str(e)[:120]})
+            break
+
+
 def run_gitpack(case):
     """git writes packs (deep chains, ofs/ref deltas, idx v1/v2, thin), dulwich reads; write_pack_from_container reuses deltas."""
     import dulwich.objects as O
@@ -466,6 +508,7 @@ def run_gitpack(case):
         verify_pack_bytes(pk, open(base + ".idx", "rb").read(), src, idxv, 20, v0, "REFERENCE-ON-GIT-PACK")
         viol += v0
         read_back_dulwich(base, SHA1, src, rng, viol, tag, stats)
+        stream_in_packets(pk, len(src), rng, viol, tag, stats)
         # chain depth actually produced
         vp = core.git(["verify-pack", "-v", base + ".idx"], cwd=d).stdout
         maxd = 0
@@ -485,8 +528,13 @@ def run_gitpack(case):
             core.git(["fetch", "-q", d, "old:refs/heads/old"], cwd=d2)
             store = DiskObjectStore(os.path.join(d2, "objects"))
             try:
-                f = io.BytesIO(thin)
-                store.add_thin_pack(f.read, None)
+                if rng.random() < 0.6:
+                    pkts = Packets(thin, rng.choice([19, 21, 24, 33, 57, 100, 120]))
+                    store.add_thin_pack(pkts.read_all, pkts.read_some)
+                    stats["thin_packs_packetised"] = 1
+                else:
+                    f = io.BytesIO(thin)
+                    store.add_thin_pack(f.read, None)
                 stats["thin_packs"] = 1
                 missing = [i for i in src if i not in store]
                 if missing:
@@ -531,6 +579,56 @@ def run_gitpack(case):
     finally:
         shutil.rmtree(d, ignore_errors=True)
     return {"viol": dedupe(viol), "stats": stats, "nontrivial": sorted(nt), "evaluations": 1}
+
+
+def run_ofsdist(case):
+    """offset deltas whose distance to the base sweeps the varint carry boundaries of the base-offset encoding (multiples of 128 in the
+    second and third digit: 16384.., 32768.., 2^21..): base, an incompressible filler of chosen size (level 0: the stored size is known),
+    delta. Written by dulwich, read by dulwich, the reference reader and git index-pack."""
+    from dulwich.object_format import SHA1
+    from dulwich.objects import Blob
+    from dulwich.pack import REF_DELTA, UnpackedObject, create_delta, full_unpacked_object, write_pack_data, write_pack_index
+    ensure()
+    rng = random.Random(case["seed"])
+    viol, stats, nt = [], {}, set()
+    d = _st["scratch"].sub("od%d" % rng.randrange(10 ** 9))
+    try:
+        for fill in case["fills"]:
+            base_blob = Blob.from_string(b"".join(b"base line %d\n" % i for i in range(30)))
+            target = Blob.from_string(base_blob.data + b"one more line %d\n" % fill)
+            filler = Blob.from_string(rng.randbytes(fill))
+            delta = create_delta(base_blob.data, target.data)
+            delta = b"".join(delta) if not isinstance(delta, bytes) else delta
+            recs = [full_unpacked_object(base_blob), full_unpacked_object(filler),
+                    UnpackedObject(REF_DELTA, delta_base=base_blob.sha().digest(), decomp_chunks=[delta], sha=target.sha().digest())]
+            src = {o.id: (o.type_name, o.as_raw_string()) for o in (base_blob, filler, target)}
+            basep = os.path.join(d, "pack-%d" % fill)
+            with open(basep + ".pack", "wb") as f:
+                entries, csum = write_pack_data(f.write, iter(recs), SHA1, num_records=3, compression_level=0)
+            ents = sorted((k, v[0], v[1]) for k, v in entries.items())
+            dist = entries[target.sha().digest()][0] - entries[base_blob.sha().digest()][0]
+            with open(basep + ".idx", "wb") as f:
+                write_pack_index(f, ents, csum, version=2)
+            tag = "ofsdist/%s" % ("carry-window" if (dist >> 7) % 128 == 0 or (dist >> 14) % 128 == 0 else "plain")
+            stats["ofs_distances_swept"] = stats.get("ofs_distances_swept", 0) + 1
+            nt.add("ofsdist:%d" % (dist >> 7))
+            pk = open(basep + ".pack", "rb").read()
+            verify_pack_bytes(pk, open(basep + ".idx", "rb").read(), src, 2, 20, viol, tag)
+            read_back_dulwich(basep, SHA1, src, rng, viol, tag, stats)
+            r = core.git(["index-pack", "--strict", "-o", basep + ".git.idx", basep + ".pack"], cwd=d, check=False)
+            if r.returncode != 0:
+                viol.append({"sig": "C02/%s/git-index-pack-rejects" % tag, "distance": dist, "err": r.stderr.decode(errors="replace")[-120:]})
+            for ext in (".pack", ".idx", ".git.idx"):
+                try:
+                    os.unlink(basep + ext)
+                except OSError:
+                    pass
+            if viol:
+                viol[-1]["distance"] = dist
+                break
+    finally:
+        shutil.rmtree(d, ignore_errors=True)
+    return {"viol": dedupe(viol), "stats": stats, "nontrivial": sorted(nt), "evaluations": len(case["fills"])}
 
 
 def run_reindex(case):
@@ -607,7 +705,7 @@ def worker_exit():
 
 def run_case(case):
     return {"write": run_write, "sha256": run_sha256, "bigofs": run_bigofs, "gitpack": run_gitpack,
-            "reindex": run_reindex}[case["kind"]](case)
+            "reindex": run_reindex, "ofsdist": run_ofsdist}[case["kind"]](case)
 
 
 def main(ctx):
@@ -624,6 +722,12 @@ def main(ctx):
     sweep = list(range(65510, 65540)) + list(range(131030, 131075)) + list(range(196560, 196600, 2))
     for i in range(0, len(sweep), 4):
         cases.append({"kind": "reindex", "seed": "%d/ri/%d" % (ctx.seed, i), "sizes": sweep[i:i + 4], "level": 0})
+    # filler sizes such that the base-offset distance crosses 2^14, 2^15, 3*2^14, 2^16 and 2^21 (+- the headers around the filler)
+    fills = []
+    for centre in (1 << 14, 1 << 15, 3 << 14, 1 << 16, 1 << 21):
+        fills += list(range(centre - 460, centre + 140, 3 if not ctx.thorough else 1))
+    for i in range(0, len(fills), 25):
+        cases.append({"kind": "ofsdist", "seed": "%d/od/%d" % (ctx.seed, i), "fills": fills[i:i + 25]})
     rr = ctx.sub_rng("reindex")
     for i in range(ctx.budget(12, 120)):
         cases.append({"kind": "reindex", "seed": "%d/rr/%d" % (ctx.seed, i), "sizes": [rr.choice([0, 1, 100, 65535, 65536, 70000, 200000]) for _ in range(3)],
@@ -631,7 +735,9 @@ def main(ctx):
     ctx.rule = ("object sets of 0..30 objects (sizes at 15/16, 2047/2048, 65535/65536/65537, 2^18+-1, duplicates, similar-blob families, all four "
                 "types) x writers {write_pack, write_pack_objects, pack_objects_to_data+write_pack_data} x deltify x window 0/1/10 x ofs_delta x "
                 "compression -1/0/1/6/9 x idx v1/v2/v3; synthetic idx entries with offsets to 2^62; git pack-objects with depth 1/5/50, "
-                "ofs/ref deltas, idx v1/v2, thin packs; write_pack_from_container with reused deltas and other_haves. non-trivial = distinct "
+                "ofs/ref deltas, idx v1/v2, thin packs, every such pack also streamed through PackStreamReader/add_thin_pack in fixed-size packets "
+                "(1..130 bytes); offset deltas whose distance to the base sweeps the carry boundaries of the offset varint (2^14, 2^15, 3*2^14, "
+                "2^16, 2^21 +-); write_pack_from_container with reused deltas and other_haves. non-trivial = distinct "
                 "(writer, options, size class, type mix).")
     ctx.assumptions = ["vt.ref.packfmt is validated against git-written packs in the same run", "byte identity with git's idx demanded only for v2/SHA-1",
                        "delta choices are never compared, only decoded contents", "configurations the code refuses outright are counted, not judged"]
